@@ -176,6 +176,13 @@ def write_nd(path, rows):
             f.write(json.dumps(r) + "\n")
 
 
+# deaths of the server process that are open findings of other properties: (finding id, texts the crash output must contain)
+FOREIGN_CRASHES = [
+    ("D_C10_GetAllMapEscape", ["concurrent map", "gateway.Gateway.GetAll"]),
+    ("D_C10_ColdIndexBuildMapEscape", ["concurrent map", "treasuresForBeacon"]),
+    ("D_C10_ColdIndexBuildMapEscape", ["concurrent map", "PushManyFromMap"]),
+]
+
 ALLDEVS = ["TimeNanosAsSeconds", "NoopEvent", "ConcurrentSend", "DeleteUnguarded"]      # bit order of Trace_Events!AllDevs
 FID_OF = {v: k for k, v in DEV_OF.items()}
 
@@ -257,15 +264,57 @@ def run(ctx):
     sf = os.path.join(ctx.work, "script.ndjson")
     tf = os.path.join(ctx.work, "trace.ndjson")
     write_nd(sf, script)
-    try:
-        ctx.run_driver(binary, ["run", sf, tf], timeout=3000, env={"C19_SPIN": "200"})
-    except vlib.Inconclusive as ex:
-        msg = str(ex)
-        if "panic:" in msg or "fatal error:" in msg or "concurrent map" in msg:
-            ctx.deviation(None, "the server process died while serving the histories: %s" % msg[-700:].replace("\n", " | "),
-                          dict(kind="crash", script=script))
-            return
-        raise
+    # The driver hosts the server.  If the server process dies (Go fatal error / panic on an unprotected goroutine) the
+    # histories finished so far are in the trace; a death whose text matches the signature of an OPEN finding of
+    # another property (reads racing with writes: C10) is that known finding, the history in progress is lost and the
+    # run continues with the remaining histories; any other death is a VIOLATION.
+    all_lines, lost, todo = [], [], script
+    for attempt in range(6):
+        part_s, part_t = os.path.join(ctx.work, "part-%d.script" % attempt), os.path.join(ctx.work, "part-%d.trace" % attempt)
+        write_nd(part_s, todo)
+        try:
+            ctx.run_driver(binary, ["run", part_s, part_t], timeout=3000, env={"C19_SPIN": "200"})
+            all_lines += [json.loads(x) for x in open(part_t)]
+            todo = []
+            break
+        except vlib.Inconclusive as ex:
+            msg = str(ex)
+            if not ("panic:" in msg or "fatal error:" in msg):
+                raise
+            fid = None
+            for f_id, needles in FOREIGN_CRASHES:
+                if all(n in msg for n in needles) and any(f.get("id") == f_id and f.get("status") == "open" for f in ctx.findings):
+                    fid = f_id
+                    break
+            got = []
+            if os.path.exists(part_t):
+                for x in open(part_t):
+                    try:
+                        got.append(json.loads(x))
+                    except Exception:
+                        break                                   # a torn last line
+            done_h = [ln["h"] for ln in got if ln.get("ev") == "reset"]
+            # the last history in the file may be incomplete only if the file ends inside it: histories are written whole
+            all_lines += got
+            hs_todo = [o["h"] for o in todo if o["op"] == "reset"]
+            dying = next((h for h in hs_todo if h not in done_h), None)
+            if fid is None:
+                ctx.deviation(None, "the server process died while serving history %s: %s" % (dying, msg[-900:].replace("\n", " | ")),
+                              dict(kind="history", h=dying, script=script[index[dying][0]:index[dying][1]] if dying in index else script))
+                return
+            ctx.known_seen.setdefault(fid, "the server process died while serving history %s (reads racing with writes): %s" % (
+                dying, msg[msg.find("fatal error"):][:300].replace("\n", " | ")))
+            lost.append(dying)
+            after = [i for i, o in enumerate(todo) if o["op"] == "reset" and o["h"] not in done_h and o["h"] != dying]
+            todo = todo[after[0]:] if after else []
+            if not todo:
+                break
+    if todo:
+        raise vlib.Inconclusive("the server process died %d times with a known crash; giving up" % (attempt + 1))
+    ctx.extra["histories_lost_to_known_crash"] = lost
+    for h in lost:
+        index.pop(h, None)
+    write_nd(tf, all_lines)
     lines = [json.loads(x) for x in open(tf)]
     # split the trace by history
     tindex, cur = {}, None
